@@ -2,6 +2,14 @@
 search, and the projection of a detection signature each property's theorem speaks about."""
 
 NAMES_RUN = {"level": "names", "args_quick": [], "args_thorough": []}
+CD_RUN = {"level": "cd", "args_quick": ["--n", "500"], "args_thorough": ["--n", "20000"]}
+E2E_RUN = {"level": "detect", "replayable": True,
+           "args_quick": ["--focus", "E2E", "--n", "140", "--max-len", "3000", "--big", "0", "--full-every", "1"],
+           "args_thorough": ["--focus", "E2E", "--n", "2500", "--max-len", "3000", "--big", "0", "--full-every", "1"]}
+E2E_RULE = ("; end-to-end: every generated case up to 3000 bytes is ALSO run through the detect model in which the mess detector, the "
+            "coherence scan, the script layers, the Jaro score, the merge, the single-byte languages and the declaration matcher are the "
+            "models themselves (driver command DETECTFULL); only the codecs, the per-character properties and alphabet_languages are still "
+            "answered by the library; the result must equal the real from_bytes line for line, bit for bit")
 MD_RUN = {"level": "md", "args_quick": ["--n", "400"], "args_thorough": ["--n", "12000"]}
 MD_RULE = ("; md level: md::mess_ratio (uncached body) against Model/Md.v -- the eight detector plugins, the checkpoint periods and the early exit -- "
            "with the two per-character oracles (ICU flag word, remove_accent) served by the library, bit for bit, on mojibake (corpus texts encoded in "
@@ -92,13 +100,14 @@ PROPS["C04"] = {
     "module": "PropC04",
     "theorems": ["C04_threshold", "C04_coherence_range", "C04_percents", "C04_f32_not_ge_lt",
                  "C04_threshold_binary32", "C04_coherence_range_binary32", "C04_float_laws_hold_for_binary32",
-                 "C04_valid_utf8_yields_match", "C04_mess_never_nan_or_negative", "C04_threshold_mess_modelled", "C04_md_shape_pinned"],
+                 "C04_valid_utf8_yields_match", "C04_mess_never_nan_or_negative", "C04_threshold_mess_modelled", "C04_md_shape_pinned",
+                 "C04_jaro_score_in_unit_interval", "C04_mean_of_unit_scores", "C04_coherence_in_unit_interval_modelled"],
     "model_targets": ["Model/Md32.vo"],
-    "runs": [detect_run("C04", 300, 5000, bigq=1, bigt=8), MD_RUN],
+    "runs": [detect_run("C04", 300, 5000, bigq=1, bigt=8), MD_RUN, CD_RUN, E2E_RUN],
     "search": detect_search("C04"),
     "rule": DETECT_RULE + "; thresholds drawn from {0, 0.01, 0.02, 0.05, 0.1, 0.2, 0.3, 0.5, 0.8, 1} and their binary32 neighbours, "
             "fall-back and pre-emptive switches both ways; every mess / coherence answer of the real primitives is checked against "
-            "the MessOK / CohOK contracts the theorems assume" + MD_RULE,
+            "the MessOK / CohOK contracts the theorems assume" + MD_RULE + E2E_RULE,
     "assumptions": ["MessOK: mess_ratio returns a non-NaN non-negative f32 -- a hypothesis of the generic theorem (asserted on every oracle answer) and PROVED of "
                     "the mess-detector model Model/Md.v for binary32 (C04_mess_never_nan_or_negative, C04_threshold_mess_modelled); the model's "
                     "remaining oracles are the per-character ICU flag word and remove_accent",
@@ -116,7 +125,7 @@ PROPS["C13"] = {
     "theorems": ["C13_covering_windows_agree", "C13_chaos_function", "C13_same_text_same_chaos", "C13_chaos_function_binary32",
                  "C13_mess_is_bank_sum_of_a_prefix", "C13_mess_full_scan_when_threshold_not_reached"],
     "model_targets": ["Model/Md32.vo"],
-    "runs": [detect_run("C13", 260, 4000), MD_RUN],
+    "runs": [detect_run("C13", 260, 4000)],
     "search": detect_search("C13"),
     "rule": DETECT_RULE + "; focus C13: every case that fits its window is re-run with (1, len) and another random covering pair; "
             "and >= 60 texts are encoded into every supported encoding that round-trips them (with / without BOM), probed alone with "
@@ -204,7 +213,8 @@ PROPS["C06"] = {
 
 PROPS["C10"] = {
     "module": "PropC10",
-    "theorems": ["C10_partition", "C10_lookup", "C10_languages", "C10_most_probable_language", "C10_unicode_ranges", "C10_partition_binary32"],
+    "theorems": ["C10_partition", "C10_lookup", "C10_languages", "C10_most_probable_language", "C10_unicode_ranges", "C10_partition_binary32",
+                 "C10_single_byte_languages_never_empty"],
     "runs": [detect_run("C10", 300, 5000), {"level": "container", "args_quick": ["--n", "200"], "args_thorough": ["--n", "5000"]}],
     "search": detect_search("C10"),
     "rule": DETECT_RULE + "; every result is checked for: no encoding twice, alternatives share text and chaos with their match, distinct "
@@ -218,7 +228,6 @@ PROPS["C10"] = {
 }
 
 
-CD_RUN = {"level": "cd", "args_quick": ["--n", "500"], "args_thorough": ["--n", "20000"]}
 
 PROPS["C19"] = {
     "module": "PropC19",
@@ -247,7 +256,7 @@ PROPS["C03"] = {
     "model_targets": ["Model/Cd.vo", "Model/Md32.vo"],
     "runs": [{"kind": "launches", "level": "launches", "launches_quick": 3, "launches_thorough": 16,
               "args_quick": ["--extra", "300", "--rounds", "4"], "args_thorough": ["--extra", "3000", "--rounds", "32"]},
-             CD_RUN, MD_RUN, detect_run("C03", 150, 2000)],
+             CD_RUN, MD_RUN, detect_run("C03", 150, 2000), E2E_RUN],
     "search": None,
     "rule": "the 428 corpus files + 300 generated multi-script texts (two or three corpus texts of different scripts glued) are detected in "
             "3 fresh processes (each launch draws fresh ahash seeds), 4 times per process with the memo caches flushed in between (new map "
@@ -262,7 +271,8 @@ PROPS["C03"] = {
 
 PROPS["C17"] = {
     "module": "PropC17",
-    "theorems": ["C17_utf8_window_decodes", "C17_char_suffix_is_continuation", "C17_strict_ok", "C17_test_only_agrees", "C17_automaton_facts"],
+    "theorems": ["C17_utf8_window_decodes", "C17_char_suffix_is_continuation", "C17_strict_ok", "C17_test_only_agrees", "C17_automaton_facts",
+                 "C17_utf8_helper_never_out_of_fuel", "C17_single_byte_helper_never_out_of_fuel"],
     "model_targets": ["Model/Decode.vo"],
     "runs": [{"level": "decode", "args_quick": ["--n", "1500"], "args_thorough": ["--n", "60000"]}],
     "search": {"level": "decode", "args": ["--n", "12000"]},
